@@ -24,6 +24,7 @@ import (
 type mvccEngine struct {
 	db        *nitro.Nitro
 	kv        bool
+	varkeys   bool // cmp=plainv: keys of 1..10 bytes under the default comparator
 	mm        bool
 	alloc     *guardalloc.Alloc
 	writers   []*nitro.Writer
@@ -99,7 +100,43 @@ func (e *mvccEngine) reset() {
 
 func (e *mvccEngine) close() { e.teardown() }
 
+// varKey: an order-preserving encoding of VARYING, non-monotone length for the default comparator (whole item,
+// bytes.Compare): a constant byte, then the nine decimal digits of k as bytes 1..10 with the trailing zero digits
+// dropped (a proper prefix sorts first, and the dropped digit is the smallest one): 119 -> 4 bytes, 120 -> 3, 200 -> 2.
+func varKey(k int) []byte {
+	d := []byte(fmt.Sprintf("%09d", k%1000000000))
+	n := len(d)
+	for n > 0 && d[n-1] == '0' {
+		n--
+	}
+	out := []byte{0x40}
+	for _, c := range d[:n] {
+		out = append(out, c-'0'+1)
+	}
+	return out
+}
+
+func varKeyDecode(b []byte) (int, bool) {
+	if len(b) < 1 || len(b) > 10 || b[0] != 0x40 || (len(b) > 1 && b[len(b)-1] == 1) {
+		return 0, false
+	}
+	k := 0
+	for i := 1; i < 10; i++ {
+		k *= 10
+		if i < len(b) {
+			if b[i] < 1 || b[i] > 10 {
+				return 0, false
+			}
+			k += int(b[i] - 1)
+		}
+	}
+	return k, true
+}
+
 func (e *mvccEngine) item(k, v int) []byte {
+	if e.varkeys {
+		return varKey(k)
+	}
 	kb := make([]byte, 8)
 	binary.BigEndian.PutUint64(kb, uint64(k))
 	if !e.kv {
@@ -116,6 +153,13 @@ func (e *mvccEngine) item(k, v int) []byte {
 }
 
 func (e *mvccEngine) show(b []byte) string {
+	if e.varkeys {
+		k, ok := varKeyDecode(b)
+		if !ok {
+			return "badbytes:" + bytesToHex(b)
+		}
+		return fmt.Sprintf("%d:0", k)
+	}
 	if !e.kv {
 		if len(b) != 8 {
 			return "badbytes:" + bytesToHex(b)
@@ -132,6 +176,10 @@ func (e *mvccEngine) show(b []byte) string {
 }
 
 func (e *mvccEngine) keyOf(b []byte) int {
+	if e.varkeys {
+		k, _ := varKeyDecode(b)
+		return k
+	}
 	if e.kv {
 		k, _ := nitro.KVFromBytes(b)
 		b = k
@@ -185,11 +233,12 @@ func (e *mvccEngine) step(toks []string) string {
 		c, _ := argOf(toks, "cmp")
 		m, _ := argOf(toks, "mem")
 		nw, ok := natArg(toks, "writers")
-		if !ok || nw < 1 || nw > 16 || (c != "plain" && c != "kv") || (m != "go" && m != "mm") {
+		if !ok || nw < 1 || nw > 16 || (c != "plain" && c != "kv" && c != "plainv") || (m != "go" && m != "mm") {
 			return "bad-op"
 		}
 		cfg := nitro.DefaultConfig()
 		e.kv = c == "kv"
+		e.varkeys = c == "plainv"
 		if e.kv {
 			cfg.SetKeyComparator(nitro.CompareKV)
 		}
@@ -505,12 +554,29 @@ func (e *mvccEngine) step(toks []string) string {
 		// GetRangeSplitItems restarts its walk for as long as it meets a marked node, so the Visitor can only get
 		// past its pivot computation once the delete goes on: let it spin on the marked node for a moment first
 		vch := make(chan string, 1)
-		go func() { vch <- e.step(append([]string{"visit"}, toks[1:4]...)) }()
-		if gap {
-			time.Sleep(2 * time.Millisecond)
-			close(resume)
+		scanMode := len(toks) > 5 && toks[5] == "mode=scan"
+		if scanMode {
+			// a plain iterator scan of the snapshot runs to its end INSIDE the gap (iterators do not wait for the
+			// delete: they help to unlink the marked node), then the delete goes on
+			go func() { vch <- e.step([]string{"scan", toks[1]}) }()
+		} else {
+			go func() { vch <- e.step(append([]string{"visit"}, toks[1:4]...)) }()
 		}
-		visitLine := <-vch
+		var visitLine string
+		if gap && scanMode {
+			select {
+			case visitLine = <-vch:
+			case <-time.After(10 * time.Second):
+				visitLine = "hang"
+			}
+			close(resume)
+		} else {
+			if gap {
+				time.Sleep(2 * time.Millisecond)
+				close(resume)
+			}
+			visitLine = <-vch
+		}
 		if gap {
 			select {
 			case delRes = <-delDone:
